@@ -302,6 +302,10 @@ def run(ctx: Ctx):
     ok = ctx.proof_stage("Properties/C13.v")
     if not ok:
         ctx.violation("theorems of Properties/C13.v no longer check", {"broken": "Properties/C13.v"}, found_input=False)
+    # clustering / graph-metrics invariance theorems (single-best-link loop, metrics, bridges)
+    ok2 = ctx.proof_stage("Properties/C13_clustering.v")
+    if not ok2:
+        ctx.violation("theorems of Properties/C13_clustering.v no longer check", {"broken": "Properties/C13_clustering.v"}, found_input=False)
     # identifier-handling layer (Model/Idents.v, Properties/C13_idents.v): theorems, translator
     # obligations and correspondence for the string-level functions that look at column names
     from harness import c13_idents
